@@ -64,9 +64,10 @@ Qed.
 
 (* non-vacuity: a module layout with ./, /-rooted, nested and data imports, main in a
    sub-directory; hypotheses hold under the current quirk set and the result is a real tree *)
+Definition w_ok_main : file := script 2 [rel [zs "a"]; rooted [zs "b"; zs "c"]; rel [zs "d.json"]].
 Definition w_ok : layout :=
   [ ([zs "r"; zs "go.mod"], gomod 1 ("module m.com/x" ++ nl));
-    ([zs "r"; zs "sub"; zs "main.arrai"], script 2 [rel [zs "a"]; rooted [zs "b"; zs "c"]; rel [zs "d.json"]]);
+    ([zs "r"; zs "sub"; zs "main.arrai"], w_ok_main);
     ([zs "r"; zs "sub"; zs "a.arrai"], script 3 []);
     ([zs "r"; zs "b"; zs "c.arrai"], script 4 [rooted [zs "sub"; zs ".."; zs "sub"; zs "a"]]);
     ([zs "r"; zs "sub"; zs "d.json"], script 5 []) ].
@@ -75,7 +76,7 @@ Lemma nonvacuous :
   exists L main t1 t2 t3,
     pre L main = true /\
     run_bundle quirks_on 24 L main = run_bundle quirks_off 24 L main /\
-    resolve_src quirks_on 24 L main = Ok (Node (script 2 [rel [zs "a"]; rooted [zs "b"; zs "c"]; rel [zs "d.json"]]) KScript [t1; t2; t3]).
+    resolve_src quirks_on 24 L main = Ok (Node w_ok_main KScript [t1; t2; t3]).
 Proof.
   exists w_ok, [zs "r"; zs "sub"; zs "main.arrai"].
   eexists. eexists. eexists. split; [vm_compute; reflexivity|]. split; vm_compute; reflexivity.
